@@ -12,12 +12,12 @@ const cfgPkgPath = modPath + "/cmd/rdpgw/config"
 
 func init() {
 	register(&Property{
-		ID:        "C18",
-		Title:     "Unsafe or inconsistent configurations are refused at startup",
-		DesignRef: "DESIGN.md §3 C18",
-		Technique: "guard inventory by edge-cut reachability on config.Load / NewHandler (the normal return must be unreachable when a refusal row holds; log.Fatal blocks terminate paths) + pairing of short-key guards with CSPRNG substitution + callee resolution of the random source + start-up value-flow of keys",
-		LevelText: "Static: for each of the six documented unsafe combinations, when both conjuncts of the row hold no path of config.Load (resp. Config.NewHandler) reaches its normal return — every such path ends in log.Fatal*; the mechanism predicates compare with the documented words. For each of the five keys, every path to Load's return either crossed an edge establishing len(key) >= 32 or stored the result of security.GenerateRandomString(n >= 32) into that key (the user-token key only under its enable switch). The generator draws only from crypto/rand and returns n characters of a constant alphabet. main loads the configuration and builds the handler before serving, and copies each key into the variable its consumer reads; each consumer refuses keys shorter than 32.",
-		LevelNote: "Trusted: koanf file/environment loading and precedence, log.Fatal* not returning. Not decided: that two instances draw different random keys (probability), configuration parsing itself.",
+		ID:          "C18",
+		Title:       "Unsafe or inconsistent configurations are refused at startup",
+		DesignRef:   "DESIGN.md §3 C18",
+		Technique:   "guard inventory by edge-cut reachability on config.Load / NewHandler (the normal return must be unreachable when a refusal row holds; log.Fatal blocks terminate paths) + pairing of short-key guards with CSPRNG substitution + callee resolution of the random source + start-up value-flow of keys",
+		LevelText:   "Static: for each of the six documented unsafe combinations, when both conjuncts of the row hold no path of config.Load (resp. Config.NewHandler) reaches its normal return — every such path ends in log.Fatal*; the mechanism predicates compare with the documented words. For each of the five keys, every path to Load's return either crossed an edge establishing len(key) >= 32 or stored the result of security.GenerateRandomString(n >= 32) into that key (the user-token key only under its enable switch). The generator draws only from crypto/rand and returns n characters of a constant alphabet. main loads the configuration and builds the handler before serving, and copies each key into the variable its consumer reads; each consumer refuses keys shorter than 32.",
+		LevelNote:   "Trusted: koanf file/environment loading and precedence, log.Fatal* not returning. Not decided: that two instances draw different random keys (probability), configuration parsing itself.",
 		Explanation: "C18/fatal-guards: per row, the CFG edges on which one of the row's conjuncts is false are deleted; the function's return must then be unreachable. C18/key-substitution: per key, edges establishing len >= 32 and the substitution store are deleted/marked; the return must be unreachable. C18/csprng resolves callees in security/string.go. C18/mechanism-words checks the ...Enabled() predicates. C18/wiring and C18/downstream-minimums follow keys from the configuration to their consumers.",
 		Assumptions: []string{"log.Fatal, log.Fatalf and log.Fatalln terminate the process"},
 		Rules: []RuleDef{
@@ -139,16 +139,8 @@ func c18KeySubstitution(c *Ctx) {
 		isKey := func(v ssa.Value) bool { p, ok := confVarPath(v, "Conf"); return ok && p == k.path }
 		// substitution store
 		nStores := 0
-		isSubst := func(in ssa.Instruction) bool {
-			s, ok := in.(*ssa.Store)
-			if !ok {
-				return false
-			}
-			p, ok := confAddrPath(s.Addr, "Conf")
-			if !ok || p != k.path {
-				return false
-			}
-			ex, ok := strip(s.Val).(*ssa.Extract)
+		freshKey := func(v ssa.Value) bool {
+			ex, ok := strip(v).(*ssa.Extract)
 			if !ok || ex.Index != 0 {
 				return false
 			}
@@ -158,6 +150,57 @@ func c18KeySubstitution(c *Ctx) {
 			}
 			n, ok := constInt(arg(call, 0))
 			return ok && n >= 32
+		}
+		// ensures: a helper that, given a pointer to a key, returns only with len(*p) >= 32
+		// established or a fresh random string stored through p
+		ensures := func(callee *ssa.Function, idx int) bool {
+			if callee == nil || !IsFirstParty(callee) || callee.Blocks == nil || idx >= len(callee.Params) {
+				return false
+			}
+			p := callee.Params[idx]
+			isDeref := func(v ssa.Value) bool {
+				u, ok := strip(v).(*ssa.UnOp)
+				return ok && u.Op == token.MUL && u.X == ssa.Value(p)
+			}
+			isStoreThrough := func(in ssa.Instruction) bool {
+				s, ok := in.(*ssa.Store)
+				return ok && s.Addr == ssa.Value(p) && freshKey(s.Val)
+			}
+			// no other store through p
+			clean := true
+			eachInstr(callee, func(in ssa.Instruction) {
+				if s, ok := in.(*ssa.Store); ok && s.Addr == ssa.Value(p) && !freshKey(s.Val) {
+					clean = false
+				}
+			})
+			if !clean {
+				return false
+			}
+			for _, r := range returnsOf(callee) {
+				if reachWithoutMarkerAvoiding(callee, r, isStoreThrough, lenAtLeast(isDeref, 32)) {
+					return false
+				}
+			}
+			return true
+		}
+		isSubst := func(in ssa.Instruction) bool {
+			if call, ok := in.(*ssa.Call); ok {
+				for i, a := range call.Call.Args {
+					if p, ok := confAddrPath(a, "Conf"); ok && p == k.path {
+						return ensures(call.Call.StaticCallee(), i)
+					}
+				}
+				return false
+			}
+			s, ok := in.(*ssa.Store)
+			if !ok {
+				return false
+			}
+			p, ok := confAddrPath(s.Addr, "Conf")
+			if !ok || p != k.path {
+				return false
+			}
+			return freshKey(s.Val)
 		}
 		eachInstr(load, func(in ssa.Instruction) {
 			if isSubst(in) {
